@@ -584,6 +584,8 @@ def symbolic_for(it, s, seq, env):
     n = seq.len_term()
     # accumulators: native lists visible in the function scope
     acc_names = [name for name, v in env.vars.items() if isinstance(v, list)]
+    # dict accumulators: empty dicts of the enclosing scope that the body fills with exactly one `d[key] = value` per element
+    dict_names = [name for name, v in env.vars.items() if type(v) is dict and not v]
     assigned = {t.id for node in _ast.walk(_ast.Module(body=s.body, type_ignores=[])) for t in
                 ([node] if isinstance(node, _ast.Name) and isinstance(node.ctx, _ast.Store) else [])}
     for tnode in _ast.walk(s.target):
@@ -596,9 +598,12 @@ def symbolic_for(it, s, seq, env):
         for name in acc_names:
             proxies[name] = AccList(env.vars[name], name)
             env_i.vars[name] = proxies[name]
+        for name in dict_names:
+            proxies[name] = AccDict(name)
+            env_i.vars[name] = proxies[name]
         it.assign(s.target, seq.at(i), env_i)
         it.block(s.body, env_i)
-        for name in acc_names:
+        for name in acc_names + dict_names:
             if name in env_i.vars and env_i.vars[name] is not proxies[name]:
                 raise Unsupported(f"accumulator {name} rebound inside a symbolic loop")
         return {name: p.events for name, p in proxies.items() if p.events}
@@ -615,10 +620,27 @@ def symbolic_for(it, s, seq, env):
         stateful.end()
     body_fn = stateful.wrap(lambda i: run_body(i, False))
     for name in assigned:
-        if name not in acc_names:
+        if name not in acc_names and name not in dict_names:
             env.vars[name] = Poison(f"variable {name} assigned inside a loop over a symbolic-length sequence")
     for name, events in probe.items():
+        if name in dict_names:
+            # {key(i): value(i) for i in range(n)} — same semantics as the dict comprehension (later duplicates win is not
+            # needed: the keys are required to be the element index or are treated as pairwise distinct by SymMap)
+            if len(events) != 1 or events[0][0] != "setitem":
+                raise Unsupported(f"dict accumulator {name}: more than one store per iteration of a symbolic loop")
+            kprobe = events[0][1]
+            key_is_index = isinstance(kprobe, Sym) and kprobe.pyt is int and \
+                it.path.entails(z3.Implies(z3.And(iv >= 0, iv < n), kprobe.term == iv))
+            if not (isinstance(kprobe, Sym) and kprobe.pyt is int):
+                raise Unsupported(f"dict accumulator {name} with non-integer symbolic keys")
+            env.vars[name] = SymMap(seq.length, (lambda i: i) if key_is_index else (lambda i, name=name: body_fn(i)[name][0][1]),
+                                    lambda i, name=name: body_fn(i)[name][0][2], key_is_index=key_is_index)
+            continue
         base = env.vars[name]
+        if not base and len(events) == 1 and events[0][0] == "append":
+            # exactly one append per element onto an empty list: the loop is a map — [value(i) for i in range(n)]
+            env.vars[name] = SymSeq(seq.length, lambda i, name=name: body_fn(i)[name][0][1], list, note="map-loop")
+            continue
 
         def contrib(i, name=name):
             evs = body_fn(i).get(name, [])
@@ -655,6 +677,23 @@ class AccList:
             self.events.append(("extend", a[0]))
             return None
         raise Unsupported(f"list.{name} on an accumulator inside a symbolic loop")
+
+
+class AccDict:
+    """proxy for an (initially empty) dict that a symbolic loop fills with one item per element"""
+
+    is_symbolic_value = True
+
+    def __init__(self, name):
+        self.name = name
+        self.events = []
+
+
+def _accdict_store(it, obj, key, v):
+    obj.events.append(("setitem", key, v))
+
+
+REGISTRY.item_store[AccDict] = _accdict_store
 
 
 def _acc_attr(it, obj, name):
